@@ -72,7 +72,7 @@ def cfg_list(tier, seed):
                  "params": {"duration": 200 / tps, "ticks_per_second": tps, "num_pools": 1, "cpus_per_pool": n + 2,
                             "ram_gb_per_pool": R, "multi_operator_containers": False, "allow_memory_overcommit": True}}
         else:
-            c = _sim.random_sim_case(rng, small=True, mem_levels=[0.05, 0.15, 0.3, 0.6], max_ticks=rng.choice([100, 300, 600]))
+            c = _sim.random_sim_case(rng, small=True, mem_levels=[0.05, 0.15, 0.3, 0.6], max_ticks=rng.choice([100, 300, 600]), algos=_sim.ALGOS_PLUS)
         c["_cfg"] = i
         out.append(c)
     return out
